@@ -1,8 +1,7 @@
 SPECIFICATION MCSpec
 CONSTANT Prop = "C10"
-CONSTANT Tier = "quick"
-CONSTANT Deviations = {"CloneDropsCalibrationQubits"}
-INVARIANT UsedExact
+CONSTANT Tier = "deep"
+CONSTANT Deviations = {}
 INVARIANT FirstInsertionOrder
 INVARIANT NoDuplicateKeys
 INVARIANT LastValueWins
@@ -12,9 +11,11 @@ INVARIANT Deterministic
 INVARIANT ViewsAgree
 INVARIANT BodyOrder
 INVARIANT Rebuild
+INVARIANT UsedExact
 INVARIANT EqByContent
 INVARIANT EqSound
 INVARIANT ConcatLaw
 INVARIANT ConcatIdentity
+INVARIANT Emit
 PROPERTY ReplaceInPlace
 CHECK_DEADLOCK FALSE
